@@ -745,6 +745,10 @@ class GraphBuilder(BuilderBase):
 
         self.add_node(node)
         self._root._functions[function.identifier()] = function
+        # The model must import the domain of the function that the new node calls
+        self._root._graph.opset_imports.setdefault(
+            function.domain, function.meta.get("opset_version", 1)
+        )
 
         if len(node.outputs) == 0:
             return ()
